@@ -806,9 +806,10 @@ class KeySweep:
                 tags["explicit_mode"] = mode
                 st["explicit_config_by_mode"][mode] = st["explicit_config_by_mode"].get(mode, 0) + 1
                 replay["explicit_mode"] = mode
-                desc = {"alone": "= %s in the --config file, no other configuration file" % k.toml(v),
-                        "against": "= %s in the --config file, = %s in the project's own file" % (k.toml(v), "" if dv is NOFILE else k.toml(dv)),
-                        "lacks": "not mentioned in the --config file, = %s in the project's own file" % ("" if dv is NOFILE else k.toml(dv))}[mode]
+                tv, tdv = ("" if v is NOFILE else k.toml(v)), ("" if dv is NOFILE else k.toml(dv))
+                desc = {"alone": "= %s in the --config file, no other configuration file" % tv,
+                        "against": "= %s in the --config file, = %s in the project's own file" % (tv, tdv),
+                        "lacks": "not mentioned in the --config file, = %s in the project's own file" % tdv}[mode]
             st["by_plumbing"][k.plumbing[0]] = st["by_plumbing"].get(k.plumbing[0], 0) + 1
             if o == "Rejected":
                 st["rejected"] += 1
